@@ -21,7 +21,9 @@ RULE = ("Hypothesis generates a model (N<=4 quick, <=5 thorough), a parallel con
         "matrices must be identical across ranks (and eigenvalues equal the reference to 1e-10*scale), G values and chi evaluated from "
         "the term representation must equal the reference on every rank on which the interface returns the element; frequency tables are "
         "compared on the reduction root (rank 0) and, for the split container path, on every rank.  A run that exceeds max(60 s, 100x the "
-        "single-rank time) three times in a row is a hang.  Non-trivial: P>=2 and (P does not divide the number of jobs/components, or "
+        "single-rank time) three times in a row is a hang.  Before the random search a sweep runs the split container computation of a fixed "
+        "two-site model (36 non-vanishing stored components) on 17..40 ranks for the (ranks, components) pairs listed in "
+        "coverage.exhaustive_subspace.  Non-trivial: P>=2 and (P does not divide the number of jobs/components, or "
         "P>components, or components>P, or T>=2 with >=50 frequencies).")
 ASSUMPTIONS = ["tables of the unsplit path / stand-alone compute are checked on rank 0 only (boost::mpi::reduce semantics: other ranks hold no result)",
                "after compute(clear=true) on-demand evaluation is not available by contract and is not requested",
@@ -225,6 +227,63 @@ def execute(case, ctx):
 
 
 FLOOR = [1e-13]
+
+
+# ---- many-rank sweep of the split container path ----------------------------------------------------------------------------------
+def _float_boundary_pairs(pmax):
+    """(ranks, stored elements) at which the colour of some rank computed in double precision, int(p / (P/K)), differs from the exact
+    floor(p*K/P): the rank counts at which computeAll_split's colour blocks are irregular (boundary values of its arithmetic)"""
+    out = []
+    for P in range(2, pmax + 1):
+        for K in range(1, P):
+            cs = 1.0 * P / K
+            if any(int(1.0 * p / cs) != (p * K) // P for p in range(P)):
+                out.append((P, K))
+    return out
+
+
+SWEEP_MODEL = {"cplx": False, "sites": [["A", 1, 2], ["B", 1, 2]], "order_spins": 0, "symm": {"mode": "default"}, "beta": 3.0,
+               "terms": [gen.P("coulombS", "A", [2.0, 0.0], [-0.7, 0.0]), gen.P("coulombS", "B", [1.5, 0.0], [0.3, 0.0]),
+                         gen.P("hop3", "A", "B", [0.5, 0.0])] +
+                        gen.with_hc([0.3, 0.0], [[1, "A", 0, 0], [0, "B", 0, 1]]) + gen.with_hc([0.2, 0.0], [[1, "A", 0, 0], [0, "A", 0, 1]])}
+# N is conserved, S_z is not: all 36 components chi_abcd with a<b, c<d are stored elements (no aliases) and none vanishes
+SWEEP_KEYS = [[a, b, c, d] for a in range(4) for b in range(a + 1, 4) for c in range(4) for d in range(c + 1, 4)]
+
+
+def sweep_pairs(tier):
+    pmax = 40
+    if tier == "quick":
+        return _float_boundary_pairs(pmax) + [(17, 16), (20, 3), (24, 24), (19, 36), (33, 5)]
+    return [(P, K) for P in range(17, pmax + 1) for K in range(1, min(36, P + 2) + 1)]
+
+
+def pre_campaign(tier, seed):
+    """rank counts above 16 for the split container computation: every (ranks, stored elements) pair of the sweep, one fixed model whose
+    36 stored components are all non-zero, each compared with the single-rank run on every rank"""
+    ctx = drive.Ctx(tier, seed, 97)
+    failures = []; n = 0; hashes = []; inconclusive = 0
+    try:
+        for (P, K) in sweep_pairs(tier):
+            case = {"model": SWEEP_MODEL, "tol2": None, "P": P, "T": 1, "delay_seed": 1, "delay_us": 0, "sa": [0, 1, 0, 1], "sa_clear": 1,
+                    "keys": SWEEP_KEYS[:K], "split": 1, "clear": 0, "triples": [[0, 0, 0], [1, -2, 0]], "eval": [[0, 0, 0], [2, -1, 1]]}
+            ctx.begin_case()
+            r = execute(case, ctx)
+            n += 1
+            if r.status == "fail":
+                failures.append({"case": case, "detail": r.detail, "signature": r.signature})
+                break
+            if r.nontrivial:
+                hashes.append(M.case_hash(case))
+            else:
+                inconclusive += 1
+    finally:
+        ctx.close()
+    cov = {"exhaustive_subspace": {"exhaustive": tier == "thorough" and not failures and not inconclusive,
+                                   "what": "split container computation on 17..40 ranks: " + ("every (ranks P, stored elements K) with K <= min(36, P+2)" if tier == "thorough" else
+                                           "the pairs at which the floating-point colour assignment of the ranks is irregular, plus five others") +
+                                           "; fixed two-site model without S_z conservation, all stored components non-zero",
+                                   "pairs": n, "inconclusive": inconclusive}}
+    return {"failures": failures[:1], "coverage": cov, "evaluations": n, "nontrivial_hashes": hashes, "classes": {"P>16": n}}
 
 
 def vmax(vals):
